@@ -25,6 +25,12 @@ fn fsm_argument_kind_matches(expected: &ValueKind, actual: &ValueKind) -> bool {
     {
       expected_element.as_ref() == actual_element.as_ref()
     }
+    // a set declared without a size accepts a set of that element kind of any size (a value's kind always carries its size)
+    (ValueKind::Set(expected_element, None), ValueKind::Set(actual_element, _)) => {
+      expected_element.as_ref() == actual_element.as_ref()
+    }
+    // an input declared `<*>` accepts an argument of any kind
+    (ValueKind::Any, _) => true,
     _ => expected == actual,
   }
 }
